@@ -342,7 +342,10 @@ func (s *sup) execute(exec, start *core.FuncDecl) {
 		if s.pkg == "keyed" {
 			regd = eq("keyed.Keyed.routines[keyed.runningRoutine.key]", recvRole(c, owner))
 		}
-		c.Walk("R5b", &core.Config{}, cb.entry(), func(p *core.Path) {
+		c.Walk("R5b", &core.Config{Follow: func(f *types.Func) bool {
+			// unexported helpers (a lock-taking wrapper such as locked(fn)) are walked in place
+			return f.Pkg() != nil && RelPkg(f.Pkg().Path()) == s.pkg && !f.Exported() && f.Origin() != start.Obj && f.Origin() != exec.Obj
+		}}, cb.entry(), func(p *core.Path) {
 			g := prepare(c, p)
 			want := fand(fand(fnot(eq("nil", s.ctxFld)), regd), fld(s.f("exited")))
 			restarted := false
@@ -609,6 +612,16 @@ func (s *sup) api(start, exec *core.FuncDecl) {
 					if okNil, _ := implies(lits, eq("nil", s.slot)); okNil {
 						oldMayExist = false
 					}
+					// the entry being written was looked up and found nil (the table never holds nil records)
+					if isSlotWrite {
+						if ix, ok := unparen(ev.Lhs).(*ast.IndexExpr); ok {
+							if t, ok := g.builderAt(i).term(ix, ev.Frame); ok {
+								if okNil, _ := implies(lits, eq("nil", t)); okNil {
+									oldMayExist = false
+								}
+							}
+						}
+					}
 					if s.pkg == "keyed" && lookupOK != nil {
 						if okNot, _ := implies(lits, fnot(fld(c.Role(lookupOK)))); okNot && isSlotWrite {
 							oldMayExist = false
@@ -831,6 +844,7 @@ func (s *sup) keyedExtras() {
 			kept := -1
 			cleared := false
 			okRole := ""
+			recTerm := ""
 			flush := func(pos token.Pos) {
 				if kept >= 0 {
 					a.note("R6b", name+"/kept-record-removal-cancelled", pos, !cleared,
@@ -853,10 +867,25 @@ func (s *sup) keyedExtras() {
 						}
 					}
 				}
+				// … or a plain lookup whose result is tested against nil (the table never holds nil records)
+				if ev.Kind == core.KAssign && ev.RhsIdx < 0 && ev.Rhs != nil && !ev.FieldInit {
+					if ix, ok := unparen(ev.Rhs).(*ast.IndexExpr); ok {
+						if fv := fieldVar(ix.X, ev.Frame); fv != nil && core.FieldName(fv) == s.slot {
+							if t, ok := g.builderAt(i).term(ev.Rhs, ev.Frame); ok {
+								recTerm = t
+							}
+						}
+					}
+				}
 				if l := g.lits[i]; l != nil {
 					str := l.f.String()
 					if okRole != "" && (str == "F("+okRole+")" && l.val || str == "!F("+okRole+")" && !l.val) {
 						kept = i
+					}
+					if recTerm != "" {
+						if ok, _ := implies([]*r2Lit{l}, fnot(eq("nil", recTerm))); ok {
+							kept = i
+						}
 					}
 					if kept >= 0 {
 						if ok, _ := implies([]*r2Lit{l}, eq("nil", s.f("deferRemove"))); ok {
@@ -1154,6 +1183,61 @@ func (s *sup) routineExtras() {
 				return true
 			})
 		}
+	}
+	// … or as a method value of a small struct that binds state and state routine (call.run): the
+	// rebuild is then the state method that hands a Routine to the function that writes the inner
+	// container's slot
+	var boundMethods []*core.FuncDecl
+	if rebuild == nil {
+		slotSetter := map[*types.Func]bool{}
+		for _, sd := range declsWhere(c, "routine", func(dd *core.FuncDecl, n ast.Node) bool {
+			_, ok := assignsFieldNode(dd, n, "routine.RoutineContainer.routine")
+			return ok
+		}) {
+			slotSetter[sd.Obj] = true
+		}
+		for _, d := range pkgDecls(c, "routine") {
+			if !isStateMethod(d) || rebuild != nil {
+				continue
+			}
+			d := d
+			callsSetter := false
+			var mvs []*core.FuncDecl
+			ast.Inspect(d.Decl.Body, func(n ast.Node) bool {
+				switch x := n.(type) {
+				case *ast.CallExpr:
+					if f, _ := typeutil.Callee(d.Pkg.TypesInfo, x).(*types.Func); f != nil && slotSetter[f.Origin()] {
+						callsSetter = true
+					}
+				case *ast.SelectorExpr:
+					if sel, ok := d.Pkg.TypesInfo.Selections[x]; ok && sel.Kind() == types.MethodVal {
+						if sig, ok := sel.Type().(*types.Signature); ok && sig.Params().Len() == 1 && sig.Results().Len() == 1 &&
+							isContextType(sig.Params().At(0).Type()) && isErrorType(sig.Results().At(0).Type()) {
+							if md := c.Prog.Decl(sel.Obj().(*types.Func).Origin()); md != nil && !isStateMethod(md) {
+								mvs = append(mvs, md)
+							}
+						}
+					}
+				}
+				return true
+			})
+			if callsSetter && len(mvs) > 0 {
+				rebuild, boundMethods = d, mvs
+			}
+		}
+	}
+	for _, md := range boundMethods {
+		bad := ""
+		ast.Inspect(md.Decl.Body, func(x ast.Node) bool {
+			if sel, ok := x.(*ast.SelectorExpr); ok {
+				if fv := fieldVar(sel, &core.Frame{Pkg: md.Pkg}); fv != nil && strings.HasPrefix(core.FieldName(fv), "routine.StateRoutineContainer.") {
+					bad = core.FieldName(fv)
+				}
+			}
+			return true
+		})
+		a.note("R12", core.FuncName(rebuild.Obj)+"/closure-captures-copy", md.Decl.Pos(), bad != "", "the routine closure uses the state and function copied under the lock",
+			"the bound routine method reads "+bad+" when it runs, outside the lock and possibly after a newer state was stored", nil)
 	}
 	if rebuild == nil {
 		c.MissingAnchor("R12", "routine.StateRoutineContainer: the method that wraps the state into a Routine closure")
